@@ -25,7 +25,7 @@ TECHNIQUE = ("model-based (stateful) testing: histories of flow_mods, packets, v
              "requests run against the switch and an independent OpenFlow 1.0 table model in lock-step; exhaustive short "
              "histories over a reduced alphabet plus Hypothesis-generated long ones")
 LEVEL_TEXT = ("Exploration by generated histories. Every history of length <= 2 (quick) / <= 3 (thorough) over a reduced alphabet "
-              "of 36 operations and of length 3 / 4 over its 16-op core is enumerated, with and without the ExpireMixin timer; Hypothesis adds histories of up to 40 / 60 "
+              "of 44 operations and of length 3 / 4 over its 16-op core is enumerated, with and without the ExpireMixin timer; Hypothesis adds histories of up to 40 / 60 "
               "operations over the full alphabet. After every step the table (contents, counters, order) and every message sent "
               "are compared with the reference model under a virtual clock with dyadic instants, so there is no tolerance. The "
               "space of histories is infinite: this is dense search, not a proof.")
@@ -33,7 +33,7 @@ LEVEL_NOTE = ("trusts pvf/ref/of10_table and of10_match as the reading of OpenFl
               "leaves open (equal-priority ties, cookie on MODIFY, the reason when both timeouts expired, removal exactly at the "
               "timeout instant, what a switch without emergency table answers) are accepted either way and followed")
 RULE = ("a case is a list of op records (flow_mod / packet / advance / sweep / stats) plus switch options (ExpireMixin timer on or "
-        "off, max_entries); matches come from a lattice of 12 overlapping wildcarded matches plus 3 exact-match ones. Non-trivial: the history contains a "
+        "off, max_entries); matches come from a lattice of 12 overlapping wildcarded matches plus 3 exact-match ones and 4 pairs that differ only in one field whose value is 0 on one side. Non-trivial: the history contains a "
         "non-strict MODIFY or DELETE that hits >= 1 and misses >= 1 installed entry, or a timeout removal, or a replace-on-ADD. "
         "Distinct by SHA-1 of the canonical JSON of the case")
 ASSUMPTIONS = [
@@ -54,7 +54,7 @@ ASSUMPTIONS = [
   "frames are well formed; byte counters count the bytes of the frame as received",
 ]
 EXHAUSTIVE_SCOPE = {
-  "quick": "all histories of length 1 and 2 over the reduced alphabet (36 ops: 12 ADD variants, 4 MODIFY / MODIFY_STRICT, 7 DELETE / DELETE_STRICT, "
+  "quick": "all histories of length 1 and 2 over the reduced alphabet (44 ops: 20 ADD variants incl. four CHECK_OVERLAP pairs that differ only in a zero-valued field, 4 MODIFY / MODIFY_STRICT, 7 DELETE / DELETE_STRICT, "
            "3 packets, 5 advances, a direct sweep, 4 stats requests) and all histories of length 3 over its 16-op core, "
            "each x {timer off, ExpireMixin timer on}",
   "thorough": "all histories of length <= 3 over the same alphabet and all histories of length 4 over its 16-op core, each x {timer off, timer on}",
@@ -133,6 +133,13 @@ def _exact(frame, in_port):
 N_WILD = len(LATTICE)
 LATTICE += [_exact(FRAMES_RAW[0], 1), _exact(FRAMES_RAW[1], 2), _exact(FRAMES_RAW[3], 1)]      # 12, 13, 14
 EXACT_PRIO = {12: 0, 13: 0xffff, 14: 2}
+# pairs that differ ONLY in one field whose value is 0 on one side: disjoint, never overlapping (15..22)
+LATTICE += [
+  _m(dl_type=0x0800, nw_proto=1, tp_src=0), _m(dl_type=0x0800, nw_proto=1, tp_src=8),     # ICMP echo reply / request
+  _m(dl_vlan=100, dl_vlan_pcp=0), _m(dl_vlan=100, dl_vlan_pcp=5),
+  _m(dl_type=0x0800, nw_tos=0), _m(dl_type=0x0800, nw_tos=0x10),
+  _m(dl_vlan=0), _m(dl_vlan=7),
+]
 LATTICE_RAW = [M.pack_match(m) for m in LATTICE]
 
 ACTS = [[4], [5], [6], [7], [4, 5], []]            # output ports of the action list
@@ -184,6 +191,10 @@ REDUCED = [
   _fm(0, 13, 0xffff, idle=2, act=3),
   _fm(0, 14, 2, flags=CHK, act=2),
   _fm(4, 12, 0),
+  _fm(0, 15, 2, flags=CHK, act=0), _fm(0, 16, 2, flags=CHK, act=1),
+  _fm(0, 17, 2, flags=CHK, act=0), _fm(0, 18, 2, flags=CHK, act=1),
+  _fm(0, 19, 2, flags=CHK, act=0), _fm(0, 20, 2, flags=CHK, act=1),
+  _fm(0, 21, 2, flags=CHK, act=0), _fm(0, 22, 2, flags=CHK, act=1),
 ]
 
 
@@ -235,6 +246,13 @@ def _outs(actions):
 
 def _kname(key):
   return "%s@%d" % (", ".join("%s=%r" % (f, v) for f, v in key[0] if v is not None) or "any", key[1])
+
+
+def _zero_sibling(a, b):
+  """a and b compare the same fields and differ in exactly one, whose value is 0 on one side."""
+  ea, eb = M.effective(a), M.effective(b)
+  diff = [f for f in M.MATCH_FIELDS if ea[f] != eb[f]]
+  return len(diff) == 1 and ea[diff[0]] is not None and eb[diff[0]] is not None and 0 in (ea[diff[0]], eb[diff[0]])
 
 
 class _Stop(Exception):
@@ -406,6 +424,9 @@ class _Run(object):
       self.out.label("notify-on-delete")
     if cmd in (3, 4) and len(after) < len(before) and not expected:
       self.out.label("delete-without-notify")
+    if (flags & CHK) and cmd in (0, 1, 2) and not expected and any(
+        e.priority == op["prio"] and not M.overlaps(e.match, LATTICE[mi]) and _zero_sibling(e.match, LATTICE[mi]) for e in before.values()):
+      self.out.label("check-overlap-disjoint-by-zero-valued-field-accepted")
     if (flags & CHK) and any(M.is_exact(e.match) for e in before.values()):
       self.out.label("check-overlap-with-exact-entries-present")
     if expected and expected[0].get("detail") == "partial" and not any(g.get("kind") == "error" for g in got):
@@ -625,7 +646,7 @@ def enum_histories(maxlen, alphabet=None, minlen=1):
 # --------------------------------------------------------------------------- Hypothesis
 
 _prio = st.sampled_from([1, 1, 2, 2, 0x8000])
-_mi = st.sampled_from([2, 3, 4, 8, 2, 3, 4, 8, 0, 1, 5, 6, 7, 9, 10, 11, 12, 12, 13, 14])
+_mi = st.sampled_from([2, 3, 4, 8, 2, 3, 4, 8, 0, 1, 5, 6, 7, 9, 10, 11, 12, 12, 13, 14, 15, 16, 17, 18, 19, 20, 21, 22])
 _flags = st.sampled_from([0, 0, SFR, SFR, CHK, SFR | CHK, EMG, EMG | SFR])
 _outp = st.sampled_from([W.OFPP_NONE, W.OFPP_NONE, W.OFPP_NONE, 4, 5, 6])
 
